@@ -43,8 +43,9 @@ reference with exactly the affected parts pruned):
   C08-unpositioned-element-misplaced    an array-of-tables element created through the API has no `doc_position`; the printer gives
                                         it the position of its predecessor in tree order, so after `sort_values` has reordered the
                                         sub-tables of the previous element its `[[header]]` is printed BEFORE some of them and they
-                                        re-attach to the new element (content changes).  Confirmed by comparing up to which element
-                                        of that array the sub-tables hang from.
+                                        re-attach to the new element (content changes).  Confirmed by `eq_relaxed`: everything is
+                                        exact (order of the elements, their lines, the sub-tables created through the API under
+                                        their own element) except which element an ORIGINAL sub-table hangs from.
   C08-key-decor-in-header               a value entry whose key carries a comment / newline in its decor is turned into a
                                         table (Item::into_table / into_array_of_tables stored back, `doc[k] = table()`):
                                         the header is printed as `[<comment>\nkey]`, which is not valid TOML
@@ -73,8 +74,10 @@ THEOREMS = [
     "C08_verbatim_text / C08_history_verbatim_text: the text printed after an edit contains, byte for byte, the key/value line of every untouched entry",
     "NOT proved (checked by the oracle on the implementation): relative order of the fragments across sections as one theorem; printed text is valid TOML and re-parses to abs t' (C06 round trip)",
 ]
-RULE = ("gen_toml documents (random layout, comments and whitespace in every decor slot) x random operation lists "
+RULE = ("(1) gen_toml documents (random layout, comments and whitespace in every decor slot) x random operation lists "
         "(length <= 12 quick) on existing / missing / wrongly typed paths over the document's own keys plus fresh keys; "
+        "(2) documents with 21..64 [headers] of 2-4 interleaved parents (standard tables and arrays of tables) x histories that push 2-5 new "
+        "array-of-tables elements / insert new tables, each followed by a nested table or value under the new element, interleaved with ordinary edits; "
         "non-trivial = at least two operations applied")
 ASSUMPTIONS = [
     "IndexMap = insertion-ordered association list, sort_keys = stable sort, Vec = list",
@@ -603,24 +606,60 @@ def flagged_aots(p, path="r", out=None):
     return out
 
 
-def canon(n, flagged, path="r"):
-    """content up to the order of standard-table entries; below a flagged array of tables also up to
-    WHICH element a sub-table / sub-array-of-tables hangs from"""
-    if n.kind == "v":
-        return ("v", n.val)
-    if n.kind == "a":
-        return ("a", tuple(canon(e, flagged, "%s/i%d" % (path, i)) for i, e in enumerate(n.elems)))
-    if n.kind == "t":
-        ents = [(k, canon(c, flagged, path + "/" + seg_key(k))) for k, c in n.items]
-        return ("t", n.inl, tuple(ents) if n.inl else tuple(sorted(ents, key=repr)))
-    if path in flagged:
-        own, moved = [], []
-        for i, e in enumerate(n.elems):
-            ep = "%s/i%d" % (path, i)
-            own.append(tuple(sorted(((k, canon(c, flagged, ep + "/" + seg_key(k))) for k, c in e.items if not is_tablelike(c)), key=repr)))
-            moved += [(k, canon(c, flagged, path + "/*")) for k, c in e.items if is_tablelike(c)]
-        return ("A*", tuple(own), tuple(sorted(moved, key=repr)))
-    return ("A", tuple(canon(e, flagged, "%s/i%d" % (path, i)) for i, e in enumerate(n.elems)))
+def eq_relaxed(p, r, flagged, path="r"):
+    """content equality (standard tables as maps) where, below a flagged array of tables, an ORIGINAL
+    (positioned) sub-table of one element may hang from another element.  Everything else is exact:
+    the order of the elements, their key/value lines, and the sub-tables created through the API
+    (they must be under the very element they were put under)."""
+    if p.kind != r.kind:
+        return False
+    if p.kind == "v":
+        return p.val == r.val
+    if p.kind == "a":
+        return len(p.elems) == len(r.elems) and all(
+            eq_relaxed(a, b, flagged, "%s/i%d" % (path, i)) for i, (a, b) in enumerate(zip(p.elems, r.elems)))
+    if p.kind == "t":
+        if p.inl != r.inl and not (p.inl and p.dotted and r.dotted):
+            return False
+        pk, rk = [k for k, _ in p.items], [k for k, _ in r.items]
+        if sorted(pk) != sorted(rk) or (p.inl and r.inl and pk != rk):
+            return False
+        return all(eq_relaxed(c, r.get(k), flagged, path + "/" + seg_key(k)) for k, c in p.items)
+    if len(p.elems) != len(r.elems):
+        return False
+    if path not in flagged:
+        return all(eq_relaxed(a, b, flagged, "%s/i%d" % (path, i)) for i, (a, b) in enumerate(zip(p.elems, r.elems)))
+    pool_p, pool_r = [], []
+    for i, (e, re_) in enumerate(zip(p.elems, r.elems)):
+        ep = "%s/i%d" % (path, i)
+        ev = [(k, c) for k, c in e.items if not is_tablelike(c)]
+        rv = [(k, c) for k, c in re_.items if not is_tablelike(c)]
+        if [k for k, _ in ev] != [k for k, _ in rv]:
+            return False
+        if not all(eq_relaxed(c, rc, flagged, ep + "/" + seg_key(k)) for (k, c), (_, rc) in zip(ev, rv)):
+            return False
+        stay = set()
+        for k, c in e.items:
+            if not is_tablelike(c):
+                continue
+            if c.orig is None:                       # created through the API: must be exactly here
+                rc = re_.get(k)
+                if rc is None or not is_tablelike(rc) or not eq_relaxed(c, rc, flagged, ep + "/" + seg_key(k)):
+                    return False
+                stay.add(k)
+            else:
+                pool_p.append((k, c))
+        pool_r += [(k, rc) for k, rc in re_.items if is_tablelike(rc) and k not in stay]
+    if len(pool_p) != len(pool_r):
+        return False
+    for k, c in pool_p:
+        for n_, (k2, rc) in enumerate(pool_r):
+            if k2 == k and eq_relaxed(c, rc, flagged, path + "/*"):
+                del pool_r[n_]
+                break
+        else:
+            return False
+    return True
 
 
 def lines(t, prefix=()):
@@ -846,7 +885,7 @@ def _analyse(case, il):
             if fl:
                 for a, b in ((False, False), (True, False), (False, True), (True, True)):
                     pr, used = prune(ref.root, a, b)
-                    if canon(pr, fl) == canon(got, fl):
+                    if eq_relaxed(pr, got, fl):
                         known |= used | {"C08-unpositioned-element-misplaced"}
                         d = None
                         skip_verbatim = True
@@ -937,9 +976,9 @@ def collect(n, p, out):
             collect(c, p + [i], out)
 
 
-def gen_ops(rng, root, n_ops, kinds):
+def gen_ops(rng, root, n_ops, kinds, ref=None):
     """ops drawn against the evolving reference tree (so that paths mostly exist)"""
-    ref = Ref(clone(root))
+    ref = ref or Ref(clone(root))
     ops = []
     for _ in range(n_ops):
         nodes = []
@@ -1067,6 +1106,119 @@ def gen_doc(rng):
         return text, v[1]
 
 
+# ---- documents with many interleaved [headers] and histories that create position-less tables ------------
+PARENTS = [b"tools", b"deps", b"srv", b"pkg"]
+
+
+def gen_interleaved(rng):
+    """21..64 headers over 2-4 parents whose [parent.child] / [[parent.arr]] headers are interleaved, so that
+    the depth-first order of the tables is not their order in the text; returns (text, reference tree)"""
+    parents = rng.sample(PARENTS, rng.choice([2, 2, 3, 4]))
+    with_aot = [p for p in parents if rng.random() < 0.6]
+    n = rng.randrange(21, 65)
+    root = Node("t", items=[])
+    out = []
+    cm = lambda: rng.choice([b"", b"", b"  # c%d" % rng.randrange(100), b" # pinned"])
+    if rng.random() < 0.7:
+        out.append(b"title = \"demo\"" + cm())
+        root.items.append([b"title", Node("v", val="s:" + hx(b"demo"))])
+        out.append(b"")
+
+    def parent_node(pk):
+        n_ = root.get(pk)
+        if n_ is None:
+            n_ = Node("t", items=[], implicit=True)
+            root.items.append([pk, n_])
+        return n_
+
+    last_elem = {}
+    for i in range(n):
+        pk = parents[i % len(parents)] if rng.random() < 0.8 else rng.choice(parents)
+        pn = parent_node(pk)
+        x = rng.random()
+        if pk in with_aot and x < 0.25:
+            a = pn.get(b"task")
+            if a is None:
+                a = Node("A", elems=[])
+                pn.items.append([b"task", a])
+            e = Node("t", items=[[b"name", Node("v", val="s:" + hx(b"e%d" % i))]])
+            a.elems.append(e)
+            last_elem[pk] = e
+            out.append(b"[[%s.task]]" % pk + cm())
+            out.append(b"name = \"e%d\"" % i + cm())
+        elif pk in last_elem and x < 0.35 and last_elem[pk].get(b"env") is None:
+            sub = Node("t", items=[[b"id", Node("v", val="i:%d" % i)]])
+            last_elem[pk].items.append([b"env", sub])
+            out.append(b"[%s.task.env]" % pk + cm())
+            out.append(b"id = %d" % i)
+        else:
+            ck = b"c%d" % i
+            t = Node("t", items=[])
+            pn.items.append([ck, t])
+            out.append(rng.choice([b"", b"", b"# about %s\n" % ck]) + b"[%s.%s]" % (pk, ck) + cm())
+            for j in range(rng.choice([0, 1, 1, 2])):
+                vk = [b"v", b"version", b"w"][j]
+                t.items.append([vk, Node("v", val="i:%d" % (i + j))])
+                out.append(vk + b" = %d" % (i + j) + cm())
+        if rng.random() < 0.5:
+            out.append(b"")
+    return b"\n".join(out) + b"\n", root, parents
+
+
+def gen_unpositioned_history(rng, root, parents):
+    """push 2-5 new [[parent.task]] elements and/or insert new tables, each followed by a nested table / value
+    under the new element, interleaved with a few ordinary edits"""
+    ref = Ref(clone(root))
+    ops = []
+
+    def do(f):
+        try:
+            ref.apply(f)
+        except Exception:
+            pass
+        ops.append(",".join(f))
+
+    def ordinary(k):
+        for o in gen_ops(rng, None, k, ["ins", "ins", "rm", "sort", "fmt", "push", "arm"], ref=ref):
+            ops.append(o)
+
+    pk = rng.choice(parents)
+    pp = [pk]
+    for _ in range(rng.randrange(2, 6)):
+        if rng.random() < 0.2:
+            pk = rng.choice(parents)
+            pp = [pk]
+        pn = ref.root.get(pk)
+        if pn is None or not pn.is_std():
+            break
+        if rng.random() < 0.75:
+            a = pn.get(b"task")
+            if a is None or a.kind != "A":
+                do(["insaot", path_text(pp), seg_key(b"task")])        # one new (empty) element
+                pn = ref.root.get(pk)
+                a = pn.get(b"task") if (pn is not None and pn.is_std()) else None
+            else:
+                do(["tpush", path_text(pp + [b"task"])])
+            if a is None or a.kind != "A" or not a.elems:
+                continue
+            ep = pp + [b"task", len(a.elems) - 1]
+            if rng.random() < 0.8:
+                do(["ins", path_text(ep), seg_key(b"name"), pv_text(("S", b"new%d" % len(ops)))])
+            if rng.random() < 0.85:
+                do(["instab", path_text(ep), seg_key(b"env")])
+                if rng.random() < 0.8:
+                    do(["ins", path_text(ep + [b"env"]), seg_key(b"id"), pv_text(("I", len(ops)))])
+        else:
+            nk = b"n%d" % len(ops)
+            do(["instab", path_text(pp), seg_key(nk)])
+            if rng.random() < 0.8:
+                do(["instab", path_text(pp + [nk]), seg_key(b"sub")])
+                do(["ins", path_text(pp + [nk, b"sub"]), seg_key(b"id"), pv_text(("I", len(ops)))])
+        if rng.random() < 0.4:
+            ordinary(rng.choice([1, 1, 2]))
+    return ops
+
+
 WITNESSES = [
     (b"# c\na = 1 # x\nb = [1, 2] \n[t]\nk = { x = 1 }\n",
      "ins,r,k63,I5.;rm,r,k61;push,r/k62,S6869.;ins,r/k74/k6b,k79,T;arm,r/k62,0;instab,r,k6e;sort,r;fmt,r/k74;arm,r/k62,7"),
@@ -1096,6 +1248,10 @@ def gen_cases(rng, tier):
         n_ops = rng.randrange(1, 13) if quick or rng.random() < 0.8 else rng.randrange(13, 40)
         ops = gen_ops(rng, root, n_ops, CORE_KINDS)
         out.append(mk_case(text, ops, "random", {"dump": G.dump_tab(tab)}))
+    # many interleaved headers + position-less tables (the printer's sort must be stable)
+    for _ in range(150 if quick else 6000):
+        text, root, parents = gen_interleaved(rng)
+        out.append(mk_case(text, gen_unpositioned_history(rng, root, parents), "interleaved"))
     return out
 
 
